@@ -10,6 +10,7 @@
 (* model on FORCED schedules, where every step is pinned by a token.)      *)
 (* Lines (all fields always present):                                      *)
 (*   Q w k op st   worker w put event k for operation op on the queue      *)
+(*   CASE w op     worker w entered the test function for one case         *)
 (*   SEND w op     worker w is about to send a request                     *)
 (*   WEXIT w       worker w's thread target returned                       *)
 (*   COUNT f lim   ExecutionControl.count_failure returned                 *)
@@ -22,8 +23,8 @@
 (***************************************************************************)
 EXTENDS Engine, Json, IOUtils
 Runs == JsonDeserialize(IOEnv.OBS_FILE)   \* sequence of [stop, unique, fault |-> BOOLEAN, lines |-> sequence of lines]
-VARIABLES t, l, pendCtrlC, owedInt
-aux == <<t, l, pendCtrlC, owedInt>>
+VARIABLES t, l, pendCtrlC, owedInt, caseSeen
+aux == <<t, l, pendCtrlC, owedInt, caseSeen>>
 tvars == <<vars, aux>>
 Lines == Runs[t].lines
 Line == Lines[l]
@@ -32,22 +33,25 @@ Consume == l' = l + 1 /\ t' = t
 Is(e) == More /\ Line.e = e
 IsQ(k) == More /\ Line.e = "Q" /\ Line.k = k
 IsY(k) == More /\ Line.e = "Y" /\ Line.k = k
-AuxSame == UNCHANGED <<pendCtrlC, owedInt>>
+AuxSame == UNCHANGED <<pendCtrlC, owedInt, caseSeen>>
 
-TInit == Init /\ t \in 1..Len(Runs) /\ l = 1 /\ pendCtrlC = FALSE /\ owedInt = FALSE
+TInit == Init /\ t \in 1..Len(Runs) /\ l = 1 /\ pendCtrlC = FALSE /\ owedInt = FALSE /\ caseSeen = [w \in Workers |-> FALSE]
 
 Silent ==
-  /\ UNCHANGED aux
-  /\ \/ \E w \in Workers :
-          \/ (W_Loop(w) /\ wpc'[w] = "create")                   \* took the next operation
-          \/ (W_Create(w) /\ faulted' = faulted)                   \* built the test
-          \/ W_CaseCheck(w)
-          \/ ((Runs[t].unique \/ Runs[t].fault) /\ W_Send(w))      \* outcome from the cache / exception before the send point
-     \/ C_Get \/ C_Timeout \/ C_Alive \/ C_Join
-     \/ (Runs[t].stop /\ Env_Stop)
+  \/ /\ UNCHANGED aux
+     /\ \/ \E w \in Workers :
+             \/ (W_Loop(w) /\ wpc'[w] = "create")                   \* took the next operation
+             \/ (W_Create(w) /\ faulted' = faulted)                   \* built the test
+             \/ (W_Done(w) /\ ~caseSeen[w])                            \* Hypothesis is done with the operation
+             \/ ((Runs[t].unique \/ Runs[t].fault) /\ W_Send(w))      \* outcome from the cache / exception before the send point
+        \/ C_Get \/ C_Timeout \/ C_Alive \/ C_Join
+        \/ (Runs[t].stop /\ Env_Stop)
+  \/ \E w \in Workers :      \* the stop check of the test function, made right after its CASE log point
+        /\ caseSeen[w] /\ W_CaseCheck(w)
+        /\ caseSeen' = [caseSeen EXCEPT ![w] = FALSE] /\ UNCHANGED <<t, l, pendCtrlC, owedInt>>
 CtrlCTakesEffect ==
   /\ pendCtrlC /\ C_CtrlCGet
-  /\ pendCtrlC' = FALSE /\ owedInt' = TRUE /\ UNCHANGED <<t, l>>
+  /\ pendCtrlC' = FALSE /\ owedInt' = TRUE /\ UNCHANGED <<t, l, caseSeen>>
 
 ScOf(op) == pi * 100 + op
 Logged ==
@@ -59,12 +63,14 @@ Logged ==
      \/ IsY("SS") /\ U_SuiteStart /\ AuxSame
      \/ IsY("SF") /\ U_SuiteFinish /\ Line.st = pstatus /\ AuxSame
      \/ (\E k \in {"ScS", "ScF", "NFE"} : IsY(k) /\ C_Yield /\ cur.k = k /\ cur.sc = ScOf(Line.op) /\ (k = "ScF" => cur.st = Line.st)) /\ AuxSame
-     \/ IsY("INT") /\ \/ (owedInt /\ owedInt' = FALSE /\ UNCHANGED vars /\ UNCHANGED pendCtrlC)
+     \/ IsY("INT") /\ \/ (owedInt /\ owedInt' = FALSE /\ UNCHANGED vars /\ UNCHANGED <<pendCtrlC, caseSeen>>)
                       \/ (~owedInt /\ ((C_Yield /\ cur.k = "INT") \/ C_CtrlC) /\ AuxSame)
      \/ Is("COUNT") /\ (MaxFail = 0 \/ (Line.fails = fails /\ Line.limit = limit)) /\ UNCHANGED vars /\ AuxSame
      \/ Is("STOP") /\ stopped /\ UNCHANGED vars /\ AuxSame
-     \/ Is("CTRLC") /\ ppc = "get" /\ pendCtrlC' = TRUE /\ UNCHANGED vars /\ UNCHANGED owedInt
-     \/ (\E w \in Workers : Line.w = w /\
+     \/ Is("CTRLC") /\ ppc = "get" /\ pendCtrlC' = TRUE /\ UNCHANGED vars /\ UNCHANGED <<owedInt, caseSeen>>
+     \/ (\E w \in Workers : Is("CASE") /\ Line.w = w /\ wpc[w] = "check" /\ wop[w] = Line.op /\ ~caseSeen[w]
+                               /\ caseSeen' = [caseSeen EXCEPT ![w] = TRUE] /\ UNCHANGED vars /\ UNCHANGED <<pendCtrlC, owedInt>>)
+     \/ (\E w \in Workers : More /\ Line.w = w /\
           \/ IsQ("ScS") /\ (W_Started(w) \/ W_Err1(w)) /\ wop[w] = Line.op
           \/ IsQ("NFE") /\ (W_Err2(w) \/ W_PutNFE(w)) /\ wop[w] = Line.op
           \/ IsQ("ScF") /\ W_Finish(w) /\ wop[w] = Line.op /\ wout[w] = Line.st
